@@ -28,6 +28,7 @@ pub fn gen(g: &mut Gen) {
     ] {
         g.op(line.to_string());
     }
+    gen_large(g, "c05.fp", "@ trace fp");
     for _ in 0..n_fp {
         gen_program(g, Kind::Fp, "c05.fp", "@ trace fp", 30);
     }
